@@ -167,6 +167,7 @@ def safe_run(mod, case, ctx):
     Run one case.  Returns (Outcome, harness_traceback_or_None).
     """
     state.reset(case)
+    t0 = time.time()
     try:
         out = mod.run(case, ctx)
         if not isinstance(out, Outcome):
@@ -176,6 +177,12 @@ def safe_run(mod, case, ctx):
         return Outcome(), traceback.format_exc()
     finally:
         state.restore()
+        slow = os.environ.get('VERIF_SLOW_LOG')
+        if slow and time.time() - t0 > float(os.environ.get(
+                'VERIF_SLOW_S', '5')):
+            with open(slow, 'a') as f:
+                f.write(json.dumps({'s': round(time.time() - t0, 1),
+                                    'case': case}) + '\n')
 
 
 def load_module(prop_id):
